@@ -264,6 +264,10 @@ func (p *c07Pred) sql(tight, upper bool) string {
 	var s string
 	switch p.K {
 	case "atom":
+		if p.OpKind == "group_lit" {
+			s = p.Alias + " " + p.Cmp + " " + p.Lit
+			break
+		}
 		lhs := p.Alias
 		if p.BQ {
 			lhs = "`" + p.Alias + "`"
@@ -298,6 +302,9 @@ func (p *c07Pred) eval(rows []Row) (tri int, sawNull bool) {
 func (p *c07Pred) evalB(rows []Row, borderline *bool) (tri int, sawNull bool) {
 	switch p.K {
 	case "atom":
+		if p.OpKind == "group_lit" {
+			return 1, false // the group column never holds the literal's text: != is true for every group
+		}
 		v, _ := p.Expr.eval(rows)
 		if v == nil {
 			return -1, true
@@ -768,6 +775,11 @@ func c07GenHaving(r *rand.Rand, c *c07Case, bs []*c07Batch) *c07Pred {
 		a.CaseWrap = r.Intn(4) == 0
 		return a
 	case 4, 5:
+		if r.Intn(4) == 0 {
+			// a comparison of the group column with a text that merely spells a keyword
+			lit := pick(r, []string{"'case'", "'lower case'", "'CASE WHEN'", "'end'"})
+			return &c07Pred{K: "and", L: &c07Pred{K: "atom", OpKind: "group_lit", Alias: c.GroupCols[0], Cmp: "!=", Lit: lit}, R: atom()}
+		}
 		return &c07Pred{K: "and", L: atom(), R: atom()}
 	case 6, 7:
 		return &c07Pred{K: "or", L: atom(), R: atom()}
@@ -847,7 +859,8 @@ func genC07(c *c07Case, r *rand.Rand) {
 			// ordinary identifiers that merely contain a keyword's letters (case_n, lowercase, ordered, limits ...)
 			name = pick(r, []string{"case_n", "lowercase", "ordered", "limits", "endv", "whenever", "thence", "nullable", "likes", "grouped", "elsewhere", "distinctive"}) + fmt.Sprint(i+1)
 		}
-		c.Items = append(c.Items, &c07Item{Name: name, Shape: shape, Expr: e, Text: e.sql(c.Tight, c.Upper) + " AS " + name})
+		text := e.sql(c.Tight, c.Upper) + " AS " + name
+		c.Items = append(c.Items, &c07Item{Name: name, Shape: shape, Expr: e, Text: text})
 	}
 	if c.Mode == "counting" || (!c.Distinct && r.Intn(3) == 0) {
 		c.Items = append(c.Items, &c07Item{Name: "ids", IDs: true, Text: "collect(id) AS ids"})
@@ -927,10 +940,14 @@ func genC07(c *c07Case, r *rand.Rand) {
 	if len(c.Order) > 0 {
 		var ks []string
 		for _, k := range c.Order {
+			col := k.Col
+			if col == "case" {
+				col = "`case`"
+			}
 			if k.Dir != "" {
-				ks = append(ks, k.Col+" "+k.Dir)
+				ks = append(ks, col+" "+k.Dir)
 			} else {
-				ks = append(ks, k.Col)
+				ks = append(ks, col)
 			}
 		}
 		sql += " ORDER BY " + strings.Join(ks, ", ")
